@@ -34,7 +34,8 @@ Definition active (c : cstate) : bool := negb (c_undesired c) && negb (c_hpgone 
 
 Inductive op :=
 | OConnect (id : N) (auto bygadget : bool)
-| ODisconnect (id : N) (forget autodisc byhotplug : bool).
+| ODisconnect (id : N) (forget autodisc byhotplug : bool)
+| OAutoConnect.   (* setup-profiles + auto-connect of the plug snap (what a refresh / install does at the interface level) *)
 
 (* where the change fails: nowhere; at a task before the main one (prepare-* / disconnect-* hook); inside the main task,
    at the k-th security backend setup call; at a task after the main one (connect-* hook or a later task of the change) *)
@@ -46,6 +47,7 @@ Definition creates (s : st) (o : op) : bool :=
   match o with
   | OConnect id _ _ => match lookup (s_conns s) id with Some c => negb (active c) | None => true end
   | ODisconnect id forget _ _ => forget || mem id (s_repo s)
+  | OAutoConnect => true
   end.
 
 (* doConnect. Result: new state, saved old-conn, success *)
@@ -95,22 +97,83 @@ Definition undo_disconnect (s : st) (id : N) (old : option cstate) : st :=
   | Some c => let repo1 := add id (s_repo s) in mkSt (set (s_conns s) id c) repo1 repo1 repo1
   end.
 
+(* ------------------------------------------------------------------ setup-profiles and auto-connect
+   setupProfilesForAppSet for the plug snap: repo.DisconnectSnap, RemoveSnap, AddAppSet, reloadConnections(snap) — so the
+   repository holds exactly the active persisted connections again — then the security setup of the snap itself and of
+   the AFFECTED snaps: the slot snap only if a connection was dropped or re-made. interfaces.SetupMany runs every snap
+   even when one fails: fc / fp say whether the plug snap's / slot snap's setup call fails. *)
+Definition active_ids (c : list (N * cstate)) : list N :=
+  map fst (filter (fun e => match lookup c (fst e) with Some v => active v | None => false end) c).
+Definition is_nil (l : list N) : bool := match l with [] => true | _ => false end.
+Definition setup_profiles (s : st) (fc fp : bool) : st :=
+  let repo1 := active_ids (s_conns s) in
+  let aff := negb (is_nil (s_repo s)) || negb (is_nil repo1) in
+  mkSt (s_conns s) repo1 (if fc then s_profc s else repo1) (if aff && negb fp then repo1 else s_profp s).
+Definition setup_calls (s : st) : N :=
+  if negb (is_nil (s_repo s)) || negb (is_nil (active_ids (s_conns s))) then 2 else 1.
+
+(* the (plug, slot) pairs of the two snaps: 2 plugs x 2 slots in the driver's world; the base declaration allows
+   auto-connection with slots-per-plug: *, so every pair is a candidate *)
+Definition univ : list N := [0; 1; 2; 3].
+(* addNewConnection: a pair is auto-connected only if `conns` has NO entry for it (active, undesired or hotplug-gone) *)
+Definition newids (s : st) : list N := filter (fun id => match lookup (s_conns s) id with None => true | Some _ => false end) univ.
+Definition auto_c : cstate := mkC true false false false true.
+(* the injected connect tasks, with delayed-setup-profiles: doConnect without the security setup *)
+Definition connect_all (ids : list N) (s : st) : st :=
+  mkSt (fold_left (fun c id => set c id auto_c) ids (s_conns s)) (fold_left (fun r id => add id r) ids (s_repo s)) (s_profc s) (s_profp s).
+(* their undo (no old-conn: there was no entry; delayed-setup-profiles: no security setup) *)
+Definition unconnect_all (ids : list N) (s : st) : st :=
+  mkSt (fold_left del ids (s_conns s)) (fold_left (fun r id => remove id r) ids (s_repo s)) (s_profc s) (s_profp s).
+
+(* the change [setup-profiles; auto-connect -> connect tasks ...; setup-profiles]; a failure inside a security setup is
+   the k-th Setup call of the whole change; undo of setup-profiles is setup-profiles for the installed revision again *)
+Definition run_autoconnect (s : st) (f : fail) : st * bool * bool :=
+  match f with
+  | FailBefore => (s, true, true)
+  | _ =>
+      let k := match f with FailMain k => k | _ => 0 end in
+      let n1 := setup_calls s in
+      if (1 <=? k) && (k <=? n1) then (setup_profiles s (k =? 1) (k =? 2), true, true)        (* first setup-profiles task fails *)
+      else
+        let s1 := setup_profiles s false false in
+        let ids := newids s1 in
+        if is_nil ids then
+          match f with FailAfter => (setup_profiles s1 false false, true, true) | _ => (s1, true, false) end
+        else
+          let s2 := connect_all ids s1 in
+          let kk := k - n1 in
+          if (kk =? 1) || (kk =? 2) then                                                       (* second setup-profiles task fails *)
+            (setup_profiles (unconnect_all ids (setup_profiles s2 (kk =? 1) (kk =? 2))) false false, true, true)
+          else
+            let s3 := setup_profiles s2 false false in
+            match f with
+            | FailAfter => (setup_profiles (unconnect_all ids (setup_profiles s3 false false)) false false, true, true)
+            | _ => (s3, true, false)
+            end
+  end.
+
 (* one change: (state after settle, change was created, change ended in Error) *)
 Definition run_change (s : st) (o : op) (f : fail) : st * bool * bool :=
+  match o with
+  | OAutoConnect => run_autoconnect s f
+  | _ =>
   if negb (creates s o) then (s, false, false)
   else
     let k := match f with FailMain k => k | _ => 0 end in
     let '(s1, old, ok) := match o with
                           | OConnect id auto byg => do_connect s id auto byg k
                           | ODisconnect id forget ad bh => do_disconnect s id forget ad bh k
+                          | OAutoConnect => (s, None, true)
                           end in
     match f with
     | FailBefore => (s, true, true)
     | FailAfter =>
-        if ok then (match o with OConnect id _ _ => undo_connect s1 id old | ODisconnect id _ _ _ => undo_disconnect s1 id old end, true, true)
+        if ok then (match o with OConnect id _ _ => undo_connect s1 id old | ODisconnect id _ _ _ => undo_disconnect s1 id old
+                                 | OAutoConnect => s1 end, true, true)
         else (s1, true, true)
     | _ => (s1, true, negb ok)
-    end.
+    end
+  end.
 
 Fixpoint run_history (s : st) (h : list (op * fail)) : st :=
   match h with [] => s | (o, f) :: r => run_history (fst (fst (run_change s o f))) r end.
@@ -121,7 +184,7 @@ Fixpoint reload (c : list (N * cstate)) : list N :=
   match c with [] => [] | (id, v) :: r => if active v then add id (reload r) else reload r end.
 
 (* ------------------------------------------------------------------ the known failing classes (KNOWN_FINDINGS), as a guard *)
-Definition op_id (o : op) : N := match o with OConnect id _ _ => id | ODisconnect id _ _ _ => id end.
+Definition op_id (o : op) : N := match o with OConnect id _ _ => id | ODisconnect id _ _ _ => id | OAutoConnect => 0 end.
 Definition excluded (s : st) (o : op) (f : fail) : bool :=
   match o, f with
   | ODisconnect id _ _ _, FailMain k => mem id (s_repo s) && (k =? 2)                  (* plug snap profile regenerated without it, then reconnect *)
@@ -129,6 +192,10 @@ Definition excluded (s : st) (o : op) (f : fail) : bool :=
   | OConnect id _ _, FailAfter =>                                                       (* undo forgets an overwritten hotplug-gone entry *)
       match lookup (s_conns s) id with Some c => c_hpgone c && negb (c_undesired c) | None => false end
   | ODisconnect id forget _ _, FailAfter => forget && negb (mem id (s_repo s))          (* undo of forgetting an inactive connection reconnects it *)
+  (* auto-connect from a state without any active connection, failing after the new connections' profiles were written:
+     the undo regenerates the plug snap's profiles only, the slot snap keeps rules for the undone connections *)
+  | OAutoConnect, FailAfter => is_nil (active_ids (s_conns s)) && negb (is_nil (newids s))
+  | OAutoConnect, FailMain k => is_nil (active_ids (s_conns s)) && negb (is_nil (newids s)) && (k =? 2)
   | _, _ => false
   end.
 
@@ -147,8 +214,6 @@ Definition conns_eqb (a b : list (N * cstate)) : bool :=
 Definition st_eqb (a b : st) : bool :=
   conns_eqb (s_conns a) (s_conns b) && set_eqb (s_repo a) (s_repo b) && set_eqb (s_profc a) (s_profc b) && set_eqb (s_profp a) (s_profp b).
 
-Definition active_ids (c : list (N * cstate)) : list N :=
-  map fst (filter (fun e => match lookup c (fst e) with Some v => active v | None => false end) c).
 (* persisted active connections = repository = what both snaps' profiles were generated for *)
 Definition agree (s : st) : bool :=
   set_eqb (active_ids (s_conns s)) (s_repo s) && set_eqb (s_profc s) (s_repo s) && set_eqb (s_profp s) (s_repo s).
